@@ -1,6 +1,8 @@
 package keeper
 
 import (
+	"sort"
+
 	sdk "github.com/cosmos/cosmos-sdk/types"
 	banktypes "github.com/cosmos/cosmos-sdk/x/bank/types"
 	"github.com/elys-network/elys/x/burner/types"
@@ -15,9 +17,17 @@ func (k Keeper) ShouldBurnTokens(ctx sdk.Context, epochIdentifier string) bool {
 // BurnTokensForAllDenoms burns tokens for all denominations
 func (k Keeper) BurnTokensForAllDenoms(ctx sdk.Context) error {
 	balances := k.getPositiveBalances(ctx)
-	for denom, balance := range balances {
-		if err := k.burnTokensForDenom(ctx, balance, denom); err != nil {
-			return err
+	// iterate in a deterministic order: the outcome must not depend on Go's map iteration
+	denoms := make([]string, 0, len(balances))
+	for denom := range balances {
+		denoms = append(denoms, denom)
+	}
+	sort.Strings(denoms)
+	for _, denom := range denoms {
+		// A denom that cannot be burned (e.g. coins locked in a vesting account that somebody created at the
+		// zero address) must neither block the other denoms nor fail block processing: it is logged and skipped.
+		if err := k.burnTokensForDenom(ctx, balances[denom], denom); err != nil {
+			continue
 		}
 	}
 	return nil
